@@ -190,6 +190,15 @@ class Model(object):
                     for x in n.body:
                         if isinstance(x, (ast.FunctionDef, ast.AsyncFunctionDef)):
                             index_func(x, cq, cq, None)
+                        elif isinstance(x, ast.Assign) and isinstance(x.value, ast.Name) and cq + '.' + x.value.id in self.funcs:
+                            # class-level alias of a method: `visit_AsyncFor = visit_For`
+                            tgt = self.funcs[cq + '.' + x.value.id]
+                            for t in x.targets:
+                                if isinstance(t, ast.Name):
+                                    al = FuncInfo(cq + '.' + t.id, tgt.node, mod, cq, rel, None)
+                                    al.name = t.id
+                                    al.alias_of = tgt.qual
+                                    self.funcs[al.qual] = al
                 elif isinstance(n, (ast.Import, ast.ImportFrom)):
                     add_import(n)
                 elif isinstance(n, ast.Assign) and len(n.targets) == 1 and isinstance(n.targets[0], ast.Name):
